@@ -417,10 +417,12 @@ pub fn gen_stmt(r: &mut Rng, known: &Known) -> Stmt {
                 let in_subject = r.chance(1, 2);
                 let p = if in_subject && sty != 1 { 7 } else if r.chance(1, 2) { 5 } else { 7 };
                 let (first, second) = if r.chance(1, 2) { (alias.clone(), survivor.clone()) } else { (survivor.clone(), alias.clone()) };
-                let mk = |who: String, h: Option<u32>| -> Clause {
-                    let (s, o) = if in_subject { (Ref::Id(who), other.clone()) } else { (other.clone(), Ref::Id(who)) };
-                    // `prefers` needs a Person subject: the subject's (canonical) type decides
-                    let subj_ty = if in_subject { sty } else { match &other { Ref::Id(i) => known.concepts.iter().find(|k| &k.0 == i).map(|k| k.1).unwrap_or(0), Ref::H(h) => hs.iter().find(|x| x.0 == *h).map(|x| x.2).unwrap_or(0) } };
+                // `prefers` needs a Person subject: the subject's (canonical) type decides
+                let other_ty = match &other { Ref::Id(i) => known.concepts.iter().find(|k| &k.0 == i).map(|k| k.1).unwrap_or(0), Ref::H(h) => hs.iter().find(|x| x.0 == *h).map(|x| x.2).unwrap_or(0) };
+                let subj_ty = if in_subject { sty } else { other_ty };
+                let other2 = other.clone();
+                let mk = move |who: String, h: Option<u32>| -> Clause {
+                    let (s, o) = if in_subject { (Ref::Id(who), other2.clone()) } else { (other2.clone(), Ref::Id(who)) };
                     Clause::En { h, s, p, o, expect: None, bad: p == 5 && subj_ty != 1 }
                 };
                 let h1 = if r.chance(1, 2) { let h = next_h; next_h += 1; hs.push((h, 'P', 0)); Some(h) } else { None };
